@@ -563,20 +563,20 @@ Section MsgFieldRT.
 Variables (s : schema) (G : nat) (idx : nat) (m : mdesc).
 Hypothesis Hm : nth_error s idx = Some m.
 Hypothesis Hnd : NoDup (map fnum (mfields m)).
-Variables (g : nat).
+Variables (g : nat) (j : nat).
 Let enc := ref_encode g s.
 Let sub := rt_ok g s.
-(* the round trip of sub-messages (induction hypothesis), at the budget the enclosing decoder passes down *)
-Hypothesis Hsub : forall j fs1 u1, sub j fs1 u1 = true -> exists mj, nth_error s j = Some mj /\
+(* the round trip of the field's message type (induction hypothesis), at the budget the enclosing decoder passes down *)
+Hypothesis Hsub : forall fs1 u1, sub j fs1 u1 = true -> exists mj, nth_error s j = Some mj /\
   bytes_ok (enc j fs1 u1) /\ ref_decode G s j (enc j fs1 u1) (zero_fields s mj, []) = Some (norm_fields g s j fs1, u1).
 Hypothesis Hstable : zero_stable s.
 Hypothesis Hidx : msg_idx_ok s.
 Hypothesis HG : (1 <= G)%nat.
 
-Lemma sub_nil j mj : nth_error s j = Some mj -> ref_decode G s j [] (zero_fields s mj, []) = Some (zero_fields s mj, []).
+Lemma sub_nil mj : nth_error s j = Some mj -> ref_decode G s j [] (zero_fields s mj, []) = Some (zero_fields s mj, []).
 Proof. intros E. destruct G as [|G']; [lia|]. apply (ref_decode_nil s j mj E). Qed.
 
-Lemma msg_rt j slot f fs : In (slot, f) (number_from 0 (mfields m)) -> In m s ->
+Lemma msg_rt slot f fs : In (slot, f) (number_from 0 (mfields m)) -> In m s ->
   f_custom f = CNone -> fty f = TMsg j -> valid_number (fnum f) = true ->
   (foneof f <> None -> i_repeated (field_info s f) = false /\ i_pointer (field_info s f) = true) ->
   msg_slot_ok s sub enc f j (nth slot fs (VInt 0)) = true ->
@@ -625,11 +625,11 @@ Proof.
                         ref_decode (S G) s idx (ref_msg_elem enc (fnum f) j x) (t0, u) = Some (set_nth t0 slot (VList (acc ++ [nel x])), u)).
         { unfold msg_elem_ok in Hx. destruct x as [| | | |[[fs1 u1]|]|fs1 u1| | |]; try discriminate Hx; cbn [ref_msg_elem].
           - apply andb_true_iff in Hx. destruct Hx as [Hx Hl1]. apply andb_true_iff in Hx. destruct Hx as [Hp Hs1].
-            destruct (Hsub j fs1 u1 Hs1) as [mj' [E' [Hb1 Hd1]]]. rewrite Emj in E'. injection E' as <-.
+            destruct (Hsub fs1 u1 Hs1) as [mj' [E' [Hb1 Hd1]]]. rewrite Emj in E'. injection E' as <-.
             apply (Hrec _ t0 _ Hb1 Hl1). rewrite Hk. fold enc. rewrite Hd1, Hn, Hp. reflexivity.
-          - apply (Hrec [] t0 _ ltac:(constructor) ltac:(reflexivity)). rewrite Hk, (sub_nil j mj Emj), Hn, Hx. cbn [nel]. rewrite Emj. reflexivity.
+          - apply (Hrec [] t0 _ ltac:(constructor) ltac:(reflexivity)). rewrite Hk, (sub_nil mj Emj), Hn, Hx. cbn [nel]. rewrite Emj. reflexivity.
           - apply andb_true_iff in Hx. destruct Hx as [Hx Hl1]. apply andb_true_iff in Hx. destruct Hx as [Hp Hs1]. apply negb_true_iff in Hp.
-            destruct (Hsub j fs1 u1 Hs1) as [mj' [E' [Hb1 Hd1]]]. rewrite Emj in E'. injection E' as <-.
+            destruct (Hsub fs1 u1 Hs1) as [mj' [E' [Hb1 Hd1]]]. rewrite Emj in E'. injection E' as <-.
             apply (Hrec _ t0 _ Hb1 Hl1). rewrite Hk. fold enc. rewrite Hd1, Hn, Hp. reflexivity. }
         destruct Hstep as [Hb1 Hd1].
         destruct (IH (acc ++ [nel x]) (set_nth t0 slot (VList (acc ++ [nel x]))) Hal ltac:(apply nth_set_nth_in; exact Hsl) ltac:(rewrite set_nth_length; exact Hsl)) as [Hb2 Hd2].
@@ -642,7 +642,7 @@ Proof.
     destruct (nth slot fs (VInt 0)) as [| | | |[[fs1 u1]|]|fs1 u1| | |] eqn:Ev; try discriminate Hok; cbn [ref_msg_slot].
     + (* pointer to a message *)
       apply andb_true_iff in Hok. destruct Hok as [Hok Hl1]. apply andb_true_iff in Hok. destruct Hok as [Hp Hs1].
-      destruct (Hsub j fs1 u1 Hs1) as [mj' [E' [Hb1 Hd1]]]. rewrite Emj in E'. injection E' as <-.
+      destruct (Hsub fs1 u1 Hs1) as [mj' [E' [Hb1 Hd1]]]. rewrite Emj in E'. injection E' as <-.
       assert (Hzp : zero_slot (length s) s f = VMsg None) by (destruct (length s); cbn [zero_slot]; rewrite (info_msg s f j Hc Ht), Er, Hp; reflexivity).
       rewrite Hzp in Hz.
       assert (Hnorm : norm_slot g s f (VMsg (Some (fs1, u1))) = VMsg (Some (norm_fields g s j fs1, u1))) by (unfold norm_slot; rewrite Hc, Ht; reflexivity).
@@ -657,14 +657,14 @@ Proof.
       rewrite Hnorm, <- Hzp, <- Hz, set_nth_same. reflexivity.
     + (* always-present message *)
       apply andb_true_iff in Hok. destruct Hok as [Hok Hl1]. apply andb_true_iff in Hok. destruct Hok as [Hp Hs1]. apply negb_true_iff in Hp.
-      destruct (Hsub j fs1 u1 Hs1) as [mj' [E' [Hb1 Hd1]]]. rewrite Emj in E'. injection E' as <-.
+      destruct (Hsub fs1 u1 Hs1) as [mj' [E' [Hb1 Hd1]]]. rewrite Emj in E'. injection E' as <-.
       assert (Hno : foneof f = None) by (destruct (foneof f) eqn:E; [destruct (Hone ltac:(congruence)) as [_ E1]; congruence|reflexivity]).
       pose proof (Hstable m f j mj Hms Hfin Hc Ht Er Hp Emj) as Hzp. rewrite Hzp in Hz.
       assert (Hnorm : norm_slot g s f (VEmb fs1 u1) = VEmb (norm_fields g s j fs1) u1) by (unfold norm_slot; rewrite Hc, Ht; reflexivity).
       rewrite Hnorm. fold enc.
       destruct (enc j fs1 u1) as [|y0 l0] eqn:Ep.
       * (* empty payload: nothing is written, and the blank value is the normal form *)
-        rewrite (sub_nil j mj Emj) in Hd1. injection Hd1 as E1 E2.
+        rewrite (sub_nil mj Emj) in Hd1. injection Hd1 as E1 E2.
         split; [constructor|]. rewrite (ref_decode_nil s idx m Hm). rewrite <- E1, <- E2, <- Hz, set_nth_same. reflexivity.
       * apply (Hrec _ t _ Hb1 Hl1).
         unfold apply_known. rewrite Hc, Ht, Er, Hp. cbn [t_pay]. rewrite Hz. cbv beta iota.
@@ -938,29 +938,27 @@ End MapFieldRT.
 (* ---------------------------------------------------------------- the round trip, by induction on the nesting of the value *)
 Section Top.
 Variable s : schema.
-Hypothesis Happ : tdec_applies s = true.
+Variable good : nat -> bool.
+Hypothesis Hgood : good_set s good.
 Hypothesis Hstable : zero_stable s.
 Hypothesis Hidx : msg_idx_ok s.
 
-Lemma wf_of_app : wf_schema_dec s /\ supported_schema s.
-Proof. apply tdec_applies_spec. exact Happ. Qed.
-
-Definition rt_stmt (g : nat) : Prop := forall idx fs un m G, nth_error s idx = Some m -> rt_ok g s idx fs un = true -> (g <= G)%nat ->
+Definition rt_stmt (g : nat) : Prop := forall idx fs un m G, good idx = true -> nth_error s idx = Some m -> rt_ok g s idx fs un = true -> (g <= G)%nat ->
   bytes_ok (ref_encode g s idx fs un) /\
   ref_decode (S G) s idx (ref_encode g s idx fs un) (zero_fields s m, []) = Some (norm_fields g s idx fs, un).
 
 Lemma rt_ok_idx g j fs1 u1 : rt_ok g s j fs1 u1 = true -> exists mj, nth_error s j = Some mj.
 Proof. destruct g; [discriminate|]. cbn [rt_ok]. destruct (nth_error s j) as [mj|]; [exists mj; reflexivity|discriminate]. Qed.
 
-Lemma field_dispatch g G idx m fs : nth_error s idx = Some m -> (S g <= G)%nat -> rt_stmt g ->
+Lemma field_dispatch g G idx m fs : good idx = true -> nth_error s idx = Some m -> (S g <= G)%nat -> rt_stmt g ->
   forall p, In p (number_from 0 (mfields m)) ->
   slot_rt_ok s (rt_ok g s) (ref_encode g s) (snd p) (nth (fst p) fs (VInt 0)) = true ->
   field_rt s G idx m (ref_slot (ref_encode g s)) (norm_slot g s) (zero_slot (length s) s) fs p.
 Proof.
-  intros Hm HG IH [slot f] Hin Hok. cbn [fst snd] in *.
-  destruct wf_of_app as [Hwf Hsup]. pose proof (nth_error_In _ _ Hm) as Hms.
-  destruct (Hwf m Hms) as [Hnd Hf]. pose proof (number_from_In _ _ _ Hin) as Hfin. destruct (Hf f Hfin) as [Hv Hnop].
-  pose proof (Hsup m Hms f Hfin) as Hs.
+  intros Hgi Hm HG IH [slot f] Hin Hok. cbn [fst snd] in *.
+  destruct (Hgood idx m Hgi Hm) as [[Hnd Hf] [Hsup Hcl]]. pose proof (nth_error_In _ _ Hm) as Hms.
+  pose proof (number_from_In _ _ _ Hin) as Hfin. destruct (Hf f Hfin) as [Hv Hnop].
+  pose proof (Hsup f Hfin) as Hs.
   unfold slot_rt_ok in Hok.
   destruct (f_custom f) eqn:Hc; try discriminate Hok.
   - destruct (fty f) as [k| |j|kk vk|] eqn:Ht; try discriminate Hok.
@@ -994,11 +992,12 @@ Proof.
            rewrite (zero_slot_scalar _ s f KInt32 Hc (or_intror (conj Ht (conj eq_refl Hp)))), Er; reflexivity|].
         apply (scalar_single_rt s G idx m Hm Hnd (ref_encode g s) KInt32 slot f fs Hin Hc (or_intror (conj Ht eq_refl)) Er Hv Hok).
     + (* message *)
-      assert (Hsub : forall j0 fs1 u1, rt_ok g s j0 fs1 u1 = true -> exists mj, nth_error s j0 = Some mj /\
-                bytes_ok (ref_encode g s j0 fs1 u1) /\ ref_decode G s j0 (ref_encode g s j0 fs1 u1) (zero_fields s mj, []) = Some (norm_fields g s j0 fs1, u1)).
-      { intros j0 fs1 u1 H1. destruct (rt_ok_idx g j0 fs1 u1 H1) as [mj Emj]. exists mj. split; [exact Emj|].
-        destruct G as [|G']; [lia|]. apply (IH j0 fs1 u1 mj G' Emj H1). lia. }
-      apply (msg_rt s G idx m Hm Hnd g Hsub Hstable Hidx ltac:(lia) j slot f fs Hin Hms Hc Ht Hv); [|exact Hok].
+      pose proof (Hcl f j Hfin Ht) as Hgj.
+      assert (Hsub : forall fs1 u1, rt_ok g s j fs1 u1 = true -> exists mj, nth_error s j = Some mj /\
+                bytes_ok (ref_encode g s j fs1 u1) /\ ref_decode G s j (ref_encode g s j fs1 u1) (zero_fields s mj, []) = Some (norm_fields g s j fs1, u1)).
+      { intros fs1 u1 H1. destruct (rt_ok_idx g j fs1 u1 H1) as [mj Emj]. exists mj. split; [exact Emj|].
+        destruct G as [|G']; [lia|]. apply (IH j fs1 u1 mj G' Hgj Emj H1). lia. }
+      apply (msg_rt s G idx m Hm Hnd g j Hsub Hstable Hidx ltac:(lia) slot f fs Hin Hms Hc Ht Hv); [|exact Hok].
       intros Ho. destruct Hs as [[_ [[[k [Hk|[Hk _]]] _]|[[j' [Ht' [[Hl Hp]|[Hl Hno]]]]|[kk [vk [Ht' _]]]]]]|[[E|E] _]]; try congruence.
       split; [apply info_not_repeated, Hl|apply Hp, Ho].
     + (* map *)
@@ -1093,17 +1092,17 @@ Qed.
 
 Theorem ref_round_trip_all : forall g, rt_stmt g.
 Proof.
-  induction g as [|g IH]; intros idx fs un m G Hm Hok HG; [discriminate Hok|].
-  destruct wf_of_app as [Hwf Hsup]. pose proof (nth_error_In _ _ Hm) as Hms.
+  induction g as [|g IH]; intros idx fs un m G Hgi Hm Hok HG; [discriminate Hok|].
+  destruct (Hgood idx m Hgi Hm) as [[Hnd0 Hf0] [Hsup Hcl]]. pose proof (nth_error_In _ _ Hm) as Hms.
   cbn [rt_ok] in Hok. rewrite Hm in Hok. apply andb_true_iff in Hok. destruct Hok as [Hok Hun].
   apply andb_true_iff in Hok. destruct Hok as [Hok Hone]. apply andb_true_iff in Hok. destruct Hok as [Hlen Hslots].
   apply Nat.eqb_eq in Hlen. rewrite forallb_forall in Hslots.
   cbn [ref_encode]. rewrite Hm.
   set (fields := number_from 0 (mfields m)) in *. set (sorted := sort_by_num fields).
   assert (Hfield : forall p, In p fields -> field_rt s G idx m (ref_slot (ref_encode g s)) (norm_slot g s) (zero_slot (length s) s) fs p).
-  { intros p Hp. apply (field_dispatch g G idx m fs Hm HG IH p Hp). apply Hslots, Hp. }
+  { intros p Hp. apply (field_dispatch g G idx m fs Hgi Hm HG IH p Hp). apply Hslots, Hp. }
   assert (Hz1 : forall p q, In p fields -> In q fields -> In (fst q) (oneof_siblings m (snd p) (fst p)) -> unset (zero_slot (length s) s (snd q))).
-  { intros p q Hp Hq Hs. apply oneof_member_zero; [apply (Hsup m Hms), (number_from_In _ _ _ Hq)|].
+  { intros p q Hp Hq Hs. apply oneof_member_zero; [apply Hsup, (number_from_In _ _ _ Hq)|].
     unfold oneof_siblings in Hs. destruct (foneof (snd p)) as [o|] eqn:Eo; [|destruct Hs]. apply in_map_iff in Hs. destruct Hs as [q' [E Hq']].
     apply filter_In in Hq'. destruct Hq' as [Hq'in Hc]. apply andb_true_iff in Hc. destruct Hc as [_ Hc].
     assert (q' = q).
@@ -1126,11 +1125,11 @@ Proof.
   { intros p q Hp Hq Hs Hne. destruct (Hsibq p q Hp Hq Hs) as [Hop Hoq].
     assert (Hsetp : is_set (nth (fst p) fs (VInt 0)) = true).
     { destruct (is_set (nth (fst p) fs (VInt 0))) eqn:E; [reflexivity|]. exfalso.
-      destruct (oneof_member_forms g (rt_ok g s) (snd p) _ (Hsup m Hms _ (number_from_In _ _ _ Hp)) Hop (Hslots p Hp) E) as [E0 _]. congruence. }
+      destruct (oneof_member_forms g (rt_ok g s) (snd p) _ (Hsup _ (number_from_In _ _ _ Hp)) Hop (Hslots p Hp) E) as [E0 _]. congruence. }
     unfold oneof_ok in Hone. rewrite forallb_forall in Hone. specialize (Hone p Hp). fold fields in Hone. rewrite Hsetp in Hone. cbn [negb orb] in Hone.
     rewrite forallb_forall in Hone. specialize (Hone (fst q) Hs). apply negb_true_iff in Hone.
-    destruct (oneof_member_forms g (rt_ok g s) (snd q) _ (Hsup m Hms _ (number_from_In _ _ _ Hq)) Hoq (Hslots q Hq) Hone) as [_ [-> Hu]]. exact Hu. }
-  destruct (Hwf m Hms) as [Hnd _].
+    destruct (oneof_member_forms g (rt_ok g s) (snd q) _ (Hsup _ (number_from_In _ _ _ Hq)) Hoq (Hslots q Hq) Hone) as [_ [-> Hu]]. exact Hu. }
+  pose proof Hnd0 as Hnd.
   destruct (fields_rt s G idx m Hm (ref_slot (ref_encode g s)) (norm_slot g s) (zero_slot (length s) s) fs Hfield Hz1 Hz2 sorted
               (sorted_nodup_fst m) ltac:(intros x Hx; apply (sort_by_num_In _ _ Hx)) (zero_fields s m) []) as [Hb [t' [Hd [Hl' Hall]]]].
   - unfold zero_fields. apply map_length.
@@ -1229,21 +1228,50 @@ Proof.
   rewrite forallb_forall in H. specialize (H f Hf). rewrite Ht in H. destruct (nth_error s j) as [mj|]; [exists mj; reflexivity|discriminate H].
 Qed.
 
-(* the side condition of the round-trip theorems *)
+(* the side conditions of the round-trip theorems: whole schema, or only the message types reachable from idx *)
 Definition rt_applies (s : schema) : bool := tdec_applies s && zero_stable_b s && msg_idx_ok_b s.
+Definition rt_applies_at (s : schema) (idx : nat) : bool := tdec_applies_at s idx && zero_stable_b s && msg_idx_ok_b s.
 
 (* ---------------------------------------------------------------- C03 for generated code *)
+Theorem ref_round_trip_at s g idx fs un m : rt_applies_at s idx = true -> nth_error s idx = Some m -> rt_ok g s idx fs un = true ->
+  bytes_ok (ref_encode g s idx fs un) /\
+  forall G, (length (ref_encode g s idx fs un) < G)%nat ->
+    ref_decode G s idx (ref_encode g s idx fs un) (zero_fields s m, []) = Some (norm_fields g s idx fs, un).
+Proof.
+  intros Happ Hm Hok. unfold rt_applies_at in Happ. apply andb_true_iff in Happ. destruct Happ as [Happ Hi]. apply andb_true_iff in Happ. destruct Happ as [Happ Hz].
+  destruct (tdec_applies_at_spec s idx Happ) as [Hg Hgi].
+  destruct (ref_round_trip_all s _ Hg (zero_stable_b_spec s Hz) (msg_idx_ok_b_spec s Hi) g idx fs un m g Hgi Hm Hok (le_n g)) as [Hb Hd]. split; [exact Hb|].
+  intros G HG. apply (ref_decode_enough s _ (S g) G idx _ _ Hb Hd HG).
+Qed.
+
 Theorem ref_round_trip s g idx fs un m : rt_applies s = true -> nth_error s idx = Some m -> rt_ok g s idx fs un = true ->
   bytes_ok (ref_encode g s idx fs un) /\
   forall G, (length (ref_encode g s idx fs un) < G)%nat ->
     ref_decode G s idx (ref_encode g s idx fs un) (zero_fields s m, []) = Some (norm_fields g s idx fs, un).
 Proof.
   intros Happ Hm Hok. unfold rt_applies in Happ. apply andb_true_iff in Happ. destruct Happ as [Happ Hi]. apply andb_true_iff in Happ. destruct Happ as [Happ Hz].
-  destruct (ref_round_trip_all s Happ (zero_stable_b_spec s Hz) (msg_idx_ok_b_spec s Hi) g idx fs un m g Hm Hok (le_n g)) as [Hb Hd]. split; [exact Hb|].
+  destruct (tdec_applies_spec s Happ) as [Hwf Hsup].
+  assert (Hg : good_set s (fun _ => true)).
+  { intros j mj _ Hmj. pose proof (nth_error_In _ _ Hmj) as Hin. split; [apply Hwf, Hin|]. split; [intros f Hf; apply (Hsup mj Hin f Hf)|reflexivity]. }
+  destruct (ref_round_trip_all s _ Hg (zero_stable_b_spec s Hz) (msg_idx_ok_b_spec s Hi) g idx fs un m g eq_refl Hm Hok (le_n g)) as [Hb Hd]. split; [exact Hb|].
   intros G HG. apply (ref_decode_enough s _ (S g) G idx _ _ Hb Hd HG).
 Qed.
 
 (* Unmarshal(Marshal(m)) into a fresh message reproduces m (up to the by-design normal form of Norm.v) *)
+Theorem marshal_unmarshal_at s progs fuel idx fs un m :
+  gen_all s = GOk progs -> wf_schema_enc s = true -> rt_applies_at s idx = true -> nth_error s idx = Some m ->
+  msg_ok fuel progs idx (Some (fs, un)) = true -> rt_ok fuel s idx fs un = true ->
+  exists data, pico_marshal fuel progs idx (fs, un) = Ok data /\
+               pico_unmarshal progs idx data (zero_fields s m, []) = (None, (norm_fields fuel s idx fs, un)).
+Proof.
+  intros Hgen Hwe Happ Hm Hmok Hrt. exists (ref_encode fuel s idx fs un). split; [apply T_enc; assumption|].
+  destruct (ref_round_trip_at s fuel idx fs un m Happ Hm Hrt) as [Hb Hd].
+  assert (Ha : tdec_applies_at s idx = true) by (unfold rt_applies_at in Happ; apply andb_true_iff in Happ; destruct Happ as [H _]; apply andb_true_iff in H; tauto).
+  pose proof (T_dec_at s progs idx (ref_encode fuel s idx fs un) (zero_fields s m, []) Hgen Ha Hb) as Ht. cbv zeta in Ht.
+  rewrite (Hd (S (S (S (length (ref_encode fuel s idx fs un))))) ltac:(lia)) in Ht. destruct Ht as [E1 E2].
+  destruct (pico_unmarshal progs idx (ref_encode fuel s idx fs un) (zero_fields s m, [])) as [e r]. cbn [fst snd] in *. subst. reflexivity.
+Qed.
+
 Theorem marshal_unmarshal s progs fuel idx fs un m :
   gen_all s = GOk progs -> wf_schema_enc s = true -> rt_applies s = true -> nth_error s idx = Some m ->
   msg_ok fuel progs idx (Some (fs, un)) = true -> rt_ok fuel s idx fs un = true ->
